@@ -200,7 +200,9 @@ type twoPhaseCommitter struct {
 	forUpdateTSConstraints map[string]uint64
 
 	pipelinedCommitInfo struct {
-		primaryOp                    kvrpcpb.Op
+		primaryOp kvrpcpb.Op
+		// [pipelinedStart, pipelinedEnd) covers all flushed keys: pipelinedStart is the smallest flushed key,
+		// pipelinedEnd is the key right after the largest flushed key (exclusive bound).
 		pipelinedStart, pipelinedEnd []byte
 	}
 }
